@@ -15,6 +15,7 @@ import (
 	"net/netip"
 	"os"
 	"path/filepath"
+	"strings"
 	"testing"
 	"time"
 
@@ -137,6 +138,8 @@ type liveRunner struct {
 	seq  uint32
 	down func(omtu int) (*link, error)
 	ups  *link
+	htgt conn.Addr // target of hello datagrams
+	last *link     // the downstream client session whose datagram the upstream side saw last: replies belong to it
 }
 
 func (r *liveRunner) fill(b []byte) {
@@ -220,6 +223,49 @@ func (r *liveRunner) recvUp(buf []byte, target conn.Addr, wait time.Duration) (n
 	return n, buf[ps : ps+pl], addr, nil
 }
 
+var (
+	helloPrefix = []byte("C05-HELLO-")
+	fencePrefix = []byte("C05-FENCE-")
+)
+
+// stale reports datagrams that belong to the session opening or to an earlier case (fences carry a sequence number).
+func (r *liveRunner) stale(payload []byte) bool {
+	if bytes.HasPrefix(payload, helloPrefix) {
+		return true
+	}
+	return bytes.HasPrefix(payload, fencePrefix) && !bytes.Equal(payload, fence(r.seq))
+}
+
+// quiet drains both sockets until nothing arrives for a while (after a retried case: duplicates may be in flight).
+func (r *liveRunner) quiet(buf []byte) {
+	for _, c := range []*net.UDPConn{r.u, r.d} {
+		for {
+			if _, _, err := recv(c, buf, 300*time.Millisecond); errors.Is(err, errTimeout) {
+				break
+			}
+		}
+	}
+}
+
+// nextUp / nextDown skip hello datagrams that were still in flight when the session opened.
+func (r *liveRunner) nextUp(buf []byte, target conn.Addr, wait time.Duration) (n int, payload []byte, addr conn.Addr, err error) {
+	for {
+		n, payload, addr, err = r.recvUp(buf, target, wait)
+		if err != nil || !r.stale(payload) {
+			return
+		}
+	}
+}
+
+func (r *liveRunner) nextDown(l *link, buf []byte, wait time.Duration) (n int, payload []byte, addr netip.AddrPort, err error) {
+	for {
+		n, payload, addr, err = r.recvDown(l, buf, wait)
+		if err != nil || !r.stale(payload) {
+			return
+		}
+	}
+}
+
 // sendDown packs a reply from source with the upstream server's real packer and sends it to the relay's client
 // socket.  It returns false if the server packer refuses the payload.
 func (r *liveRunner) sendDown(omtu int, source netip.AddrPort, payload []byte) (bool, error) {
@@ -268,8 +314,30 @@ func (r *liveRunner) recvDown(l *link, buf []byte, wait time.Duration) (n int, p
 	return n, buf[ps : ps+pl], addr, nil
 }
 
+// repoint sends a hello through the session replies belong to, so that the upstream side's idea of the relay's
+// client socket and session is current again (a stale datagram of another session may have moved it).
+func (r *liveRunner) repoint(buf []byte) {
+	hello := []byte(fmt.Sprintf("C05-HELLO-POINT-%d", r.seq))
+	if sent, err := r.sendUp(r.last, r.htgt, hello); err != nil || !sent {
+		return
+	}
+	for {
+		_, got, _, err := r.recvUp(buf, r.htgt, liveWait/2)
+		if err != nil || bytes.Equal(got, hello) {
+			return
+		}
+	}
+}
+
 func fence(seq uint32) []byte {
 	return binary.BigEndian.AppendUint32([]byte("C05-FENCE-"), seq)
+}
+
+// duplicates of a retried case may still be in flight when it ends
+func (r *liveRunner) settle(attempt int, buf []byte) {
+	if attempt > 0 {
+		r.quiet(buf)
+	}
 }
 
 const liveWait = 10 * time.Second
@@ -293,7 +361,9 @@ func (r *liveRunner) runUp(e *expJ, buf []byte) {
 	payload := make([]byte, c.L)
 	r.fill(payload)
 	deliver := e.St == "done"
-	for attempt := 0; ; attempt++ {
+	attempt := 0
+	defer func() { r.settle(attempt, buf) }()
+	for ; ; attempt++ {
 		sent, err := r.sendUp(l, target, payload)
 		if err != nil {
 			r.res.Break("live: sending uplink: %v", err)
@@ -311,9 +381,16 @@ func (r *liveRunner) runUp(e *expJ, buf []byte) {
 			r.res.Break("live: sending the fence: %v", err)
 			return
 		}
-		n, got, addr, err := r.recvUp(buf, target, liveWait)
+		n, got, addr, err := r.nextUp(buf, target, liveWait)
+		if err == nil {
+			r.last = l
+		}
 		if err != nil {
 			if errors.Is(err, errTimeout) {
+				if attempt < 3 {
+					r.res.Count("live_timeouts_retried", 1)
+					continue // loss and starvation are not statements of the property: once more
+				}
 				r.res.Break("live: neither the datagram nor its fence arrived upstream (%s->%s)", c.Sp, c.Cp)
 			} else {
 				r.violation(e, "udp.live/upstream-rejects:"+codecName(c.Cp), "the upstream server cannot unpack what the relay sent: "+err.Error(), nil, nil)
@@ -323,10 +400,10 @@ func (r *liveRunner) runUp(e *expJ, buf []byte) {
 		isFence := bytes.Equal(got, f)
 		switch {
 		case isFence && deliver:
-			if attempt == 0 {
+			if attempt < 2 {
 				continue // a lost datagram is not a statement about the relay: once more
 			}
-			r.violation(e, "udp.live/fitting-datagram-dropped:"+codecName(c.Cp), fmt.Sprintf("the relay did not forward a payload of %d bytes that fits (twice), the fence behind it arrived", c.L), "forwarded", "dropped")
+			r.violation(e, "udp.live/fitting-datagram-dropped:"+codecName(c.Cp), fmt.Sprintf("the relay did not forward a payload of %d bytes that fits (three times), the fence behind it arrived", c.L), "forwarded", "dropped")
 			return
 		case isFence:
 			r.res.Count("live_dropped_as_expected", 1)
@@ -346,21 +423,23 @@ func (r *liveRunner) runUp(e *expJ, buf []byte) {
 			r.violation(e, "udp.live/address-changed:"+codecName(c.Cp), "the address arrived different", target.String(), addr.String())
 		}
 		r.res.Count("live_delivered", 1)
-		if _, got2, _, err := r.recvUp(buf, target, liveWait); err != nil || !bytes.Equal(got2, f) {
-			r.res.Break("live: the fence did not follow the datagram: %v", err)
+		for {
+			_, got2, _, err := r.nextUp(buf, target, liveWait)
+			if err == nil && attempt > 0 && bytes.Equal(got2, payload) {
+				continue // a duplicate of the retried datagram
+			}
+			if err != nil || !bytes.Equal(got2, f) {
+				r.res.Break("live: the fence did not follow the datagram: %v", err)
+			}
+			return
 		}
-		return
 	}
 }
 
 // runDown sends one downlink case through the live relay (the session exists: hello opened it).
 func (r *liveRunner) runDown(e *expJ, buf []byte) {
 	c := &e.C
-	l, err := r.down(1500)
-	if err != nil {
-		r.res.Break("live: downstream link: %v", err)
-		return
-	}
+	l := r.last
 	src, err := connAddr(c.A)
 	if err != nil {
 		r.res.Break("live: %v", err)
@@ -373,7 +452,9 @@ func (r *liveRunner) runDown(e *expJ, buf []byte) {
 	payload := make([]byte, c.L)
 	r.fill(payload)
 	deliver := e.St == "done"
-	for attempt := 0; ; attempt++ {
+	attempt := 0
+	defer func() { r.settle(attempt, buf) }()
+	for ; ; attempt++ {
 		sent, err := r.sendDown(c.Omtu, source, payload)
 		if err != nil {
 			r.res.Break("live: sending downlink: %v", err)
@@ -391,9 +472,14 @@ func (r *liveRunner) runDown(e *expJ, buf []byte) {
 			r.res.Break("live: sending the fence: %v", err)
 			return
 		}
-		n, got, addr, err := r.recvDown(l, buf, liveWait)
+		n, got, addr, err := r.nextDown(l, buf, liveWait)
 		if err != nil {
 			if errors.Is(err, errTimeout) {
+				if attempt < 3 {
+					r.res.Count("live_timeouts_retried", 1)
+					r.repoint(buf)
+					continue
+				}
 				r.res.Break("live: neither the reply nor its fence arrived downstream (%s<-%s)", c.Sp, c.Cp)
 			} else {
 				r.violation(e, "udp.live/downstream-rejects:"+codecName(c.Sp), "the downstream client cannot unpack what the relay sent: "+err.Error(), nil, nil)
@@ -403,10 +489,11 @@ func (r *liveRunner) runDown(e *expJ, buf []byte) {
 		isFence := bytes.Equal(got, f)
 		switch {
 		case isFence && deliver:
-			if attempt == 0 {
+			if attempt < 2 {
+				r.repoint(buf)
 				continue
 			}
-			r.violation(e, "udp.live/fitting-datagram-dropped:"+codecName(c.Sp), fmt.Sprintf("the relay did not return a payload of %d bytes that fits (twice), the fence behind it arrived", c.L), "forwarded", "dropped")
+			r.violation(e, "udp.live/fitting-datagram-dropped:"+codecName(c.Sp), fmt.Sprintf("the relay did not return a payload of %d bytes that fits (three times), the fence behind it arrived", c.L), "forwarded", "dropped")
 			return
 		case isFence:
 			r.res.Count("live_dropped_as_expected", 1)
@@ -425,10 +512,16 @@ func (r *liveRunner) runDown(e *expJ, buf []byte) {
 			r.violation(e, "udp.live/address-changed:"+codecName(c.Sp), "the source address arrived different", source.String(), addr.String())
 		}
 		r.res.Count("live_delivered", 1)
-		if _, got2, _, err := r.recvDown(l, buf, liveWait); err != nil || !bytes.Equal(got2, f) {
-			r.res.Break("live: the fence did not follow the reply: %v", err)
+		for {
+			_, got2, _, err := r.nextDown(l, buf, liveWait)
+			if err == nil && attempt > 0 && bytes.Equal(got2, payload) {
+				continue
+			}
+			if err != nil || !bytes.Equal(got2, f) {
+				r.res.Break("live: the fence did not follow the reply: %v", err)
+			}
+			return
 		}
-		return
 	}
 }
 
@@ -479,7 +572,8 @@ func runGroup(t *testing.T, res *vio.Result, w *world, g *liveGroup, seed int64)
 
 	// the relay under test: one server of protocol sp, client c of protocol cp pointing at the upstream socket
 	sc := map[string]any{"name": "front", "protocol": protoName[g.Sp], "mtu": g.Smtu, "paddingPolicy": polName(g.Rpol),
-		"udpListeners": []map[string]any{{"network": "udp", "address": net.JoinHostPort(loopback(g.Lfam), "0"), "batchMode": g.Batch}}}
+		"udpListeners": []map[string]any{{"network": "udp", "address": net.JoinHostPort(loopback(g.Lfam), "0"), "batchMode": g.Batch, "relayBatchSize": 8, "serverRecvBatchSize": 8,
+			"natTimeout": "70s"}}}
 	var tunnel conn.Addr
 	switch g.Sp {
 	case "ss0":
@@ -580,13 +674,17 @@ func runGroup(t *testing.T, res *vio.Result, w *world, g *liveGroup, seed int64)
 	done := make(chan bool, 1)
 	go func() { done <- m.Run(ctx) }()
 	defer func() {
+		// let the relay goroutines finish with the last datagram, then stop.  A relay whose Stop does not return
+		// promptly (a session re-arming its timeout while Stop runs is property C12's subject, not this one's) is
+		// left behind: its sessions end with their NAT timeout.
+		time.Sleep(20 * time.Millisecond)
 		cancel()
 		select {
 		case <-done:
-		case <-time.After(30 * time.Second):
-			res.Break("live: the relay did not stop")
+			m.Close()
+		case <-time.After(3 * time.Second):
+			res.Count("live_relays_left_stopping", 1)
 		}
-		m.Close()
 	}()
 	for i := 0; i < 3000 && !r.rAP.IsValid(); i++ {
 		for _, ent := range logs.All() {
@@ -625,6 +723,7 @@ func runGroup(t *testing.T, res *vio.Result, w *world, g *liveGroup, seed int64)
 			target = conn.AddrFromIPPort(r.uAP)
 		}
 	}
+	r.htgt = target
 	ok := false
 	for i := 0; i < 40 && !ok; i++ {
 		hello := []byte(fmt.Sprintf("C05-HELLO-%d", i))
@@ -644,29 +743,76 @@ func runGroup(t *testing.T, res *vio.Result, w *world, g *liveGroup, seed int64)
 		}
 	}
 	if !ok {
+		var refusals []string
+		for _, ent := range logs.All() {
+			if strings.HasPrefix(ent.Message, "Failed to pack packet") {
+				refusals = append(refusals, fmt.Sprintf("%s %s %v", ent.Level, ent.Message, ent.ContextMap()))
+			}
+		}
+		if len(refusals) > 0 {
+			if len(refusals) > 3 {
+				refusals = refusals[:3]
+			}
+			e := &expJ{C: caseJ{Dir: "up", Sp: g.Sp, Cp: g.Cp, Smtu: g.Smtu, Cmtu: g.Cmtu, Omtu: 1500, Lfam: g.Lfam, Ufam: g.Ufam, A: kindOf(target),
+				L: 11, Opol: g.Opol, Rpol: g.Rpol, Psm: "adv", Allc: g.Allc}, St: "done"}
+			r.violation(e, "udp.live/fitting-datagram-dropped:"+codecName(g.Cp), fmt.Sprintf("the relay cannot pack a datagram of a few bytes in the buffer it allocated: %v", refusals), "forwarded", "dropped")
+			return
+		}
 		res.Break("live: the relay %s->%s never forwarded the hello datagram", g.Sp, g.Cp)
 		return
 	}
+	r.last = d0
 	// ... and back, so that the relay's downlink and the downstream client's view of the server session exist
 	reply := []byte("C05-HELLO-BACK")
 	src := netip.AddrPortFrom(ip4, 443)
 	if g.Cp == "direct" {
 		src = r.uAP
 	}
-	if sent, err := r.sendDown(1500, src, reply); err != nil || !sent {
-		res.Break("live: hello reply: %v", err)
-		return
+	back := false
+	for i := 0; i < 6 && !back; i++ {
+		if sent, err := r.sendDown(1500, src, reply); err != nil || !sent {
+			res.Break("live: hello reply: %v", err)
+			return
+		}
+		_, got, _, err := r.recvDown(d0, buf, liveWait/2)
+		back = err == nil && bytes.Equal(got, reply)
+		if !back {
+			res.Count("live_timeouts_retried", 1)
+			// the relay's client socket as of the latest datagram
+			if sent, err := r.sendUp(d0, target, []byte("C05-HELLO-AGAIN")); err == nil && sent {
+				r.recvUp(buf, target, liveWait/2)
+			}
+		}
 	}
-	if _, got, _, err := r.recvDown(d0, buf, liveWait); err != nil || !bytes.Equal(got, reply) {
-		var tail []string
+	if !back {
+		var tail, refusals []string
 		for _, ent := range logs.All() {
-			tail = append(tail, fmt.Sprintf("%s %s %v", ent.Level, ent.Message, ent.ContextMap()))
+			line := fmt.Sprintf("%s %s %v", ent.Level, ent.Message, ent.ContextMap())
+			tail = append(tail, line)
+			if strings.HasPrefix(ent.Message, "Failed to pack packet") {
+				refusals = append(refusals, line)
+			}
 		}
 		if len(tail) > 12 {
 			tail = tail[len(tail)-12:]
 		}
-		res.Break("live: the relay %s<-%s (batch %q) never returned the hello reply: %v; got %q; nat %s; relay log: %v", g.Sp, g.Cp, g.Batch, err, got, r.nat, tail)
+		if len(refusals) > 0 {
+			// the relay itself reports that it could not pack a reply of a few bytes
+			if len(refusals) > 3 {
+				refusals = refusals[:3]
+			}
+			e := &expJ{C: caseJ{Dir: "down", Sp: g.Sp, Cp: g.Cp, Smtu: g.Smtu, Cmtu: g.Cmtu, Omtu: 1500, Lfam: g.Lfam, Ufam: g.Ufam, A: addrJ{K: "v4", Port: 443},
+				L: len(reply), Opol: g.Opol, Rpol: g.Rpol, Psm: "adv", Allc: g.Allc}, St: "done"}
+			r.violation(e, "udp.live/fitting-datagram-dropped:"+codecName(g.Sp), fmt.Sprintf("the relay cannot pack a reply of %d bytes in the buffer it allocated: %v", len(reply), refusals), "forwarded", "dropped")
+			return
+		}
+		res.Break("live: the relay %s<-%s (batch %q) never returned the hello reply; nat %s; relay log: %v", g.Sp, g.Cp, g.Batch, r.nat, tail)
 		return
+	}
+	// drain replies of retried hellos
+	for back {
+		_, got, _, err := r.recvDown(d0, buf, 50*time.Millisecond)
+		back = err == nil && bytes.Equal(got, reply)
 	}
 
 	for i := range g.Cases {
